@@ -323,3 +323,11 @@ def replay(spec):
         if pc['alt'] != pva['alt'] or pc['VD'] != pva['VD']:
             fails.append('2D: correct_pva changed altitude or vertical velocity')
     return {'violated': bool(fails), 'detail': fails}
+
+
+RIM = {'lat': -84.6, 'lon': 150.0, 'alt': 15000.0, 'VN': 250.0, 'VE': -200.0, 'VD': 5.0, 'roll': 120.0, 'pitch': -60.0, 'heading': -170.0}
+
+
+def FALLBACK(tier):
+    """numeric oracle specs put to the compiled code when the symbolic run is inconclusive (main.py)"""
+    return [{'check': 'correct', 'point': p, 'params': {'wa': wa}} for wa in (True, False) for p in ({}, RIM)]
